@@ -447,6 +447,60 @@ func sortedSummarizeBelowFanIn(seq dag.Seq) bool {
 	return false
 }
 
+// mergeWhereText rewrites every `where A | where B` of the program text into
+// `where (A) and (B)` (what mergeFilters does to the DAG), at any nesting depth.
+func mergeWhereText(q string) string {
+	for {
+		changed := false
+		for i := 0; i+6 <= len(q); i++ {
+			if !strings.HasPrefix(q[i:], "where ") || (i > 0 && q[i-1] != ' ' && q[i-1] != '(') {
+				continue
+			}
+			aStart := i + 6
+			aEnd := predEnd(q, aStart)
+			if !strings.HasPrefix(q[aEnd:], " | where ") {
+				continue
+			}
+			bStart := aEnd + len(" | where ")
+			bEnd := predEnd(q, bStart)
+			q = q[:i] + "where (" + q[aStart:aEnd] + ") and (" + q[bStart:bEnd] + ")" + q[bEnd:]
+			changed = true
+			break
+		}
+		if !changed {
+			return q
+		}
+	}
+}
+
+// predEnd: the end of a predicate starting at i: the next " | " or " =>" at parenthesis depth 0, an
+// unmatched ")", or the end of the text (string literals are skipped).
+func predEnd(q string, i int) int {
+	depth := 0
+	for j := i; j < len(q); j++ {
+		switch q[j] {
+		case '"':
+			for j++; j < len(q) && q[j] != '"'; j++ {
+				if q[j] == '\\' {
+					j++
+				}
+			}
+		case '(':
+			depth++
+		case ')':
+			if depth == 0 {
+				return j
+			}
+			depth--
+		case ' ':
+			if depth == 0 && (strings.HasPrefix(q[j:], " | ") || strings.HasPrefix(q[j:], " =>")) {
+				return j
+			}
+		}
+	}
+	return len(q)
+}
+
 // adjacentFilters: two filters in a row anywhere mergeFilters looks.
 func adjacentFilters(seq dag.Seq) bool {
 	for i, op := range seq {
@@ -544,6 +598,18 @@ func (c *c07Case) classify(l *TLake, o c07Outcome) string {
 		}
 		if (len(onlyUn) == 0 || onlyErrorValues(onlyUn)) && (len(onlyOp) == 0 || onlyErrorValues(onlyOp)) && adjacentFilters(before) {
 			return "C07:mergeFilters:error-value"
+		}
+	}
+	if c.Check != "lake" && before != nil && adjacentFilters(before) && !o.Un.Failed() && !o.Op.Failed() {
+		// the difference is exactly what merging adjacent filters by hand produces in the plan as
+		// analyzed (an error value emitted by the first filter survives in `A and B` and feeds the
+		// operators downstream, e.g. as a group of a summarize)
+		if merged := mergeWhereText(c.Prog.Text()); merged != c.Prog.Text() {
+			text := strings.Join(c.Input, "\n")
+			um := RunPlan(PlanCfg{Query: merged, SortKey: parseSortKey(c.SortKey), Readers: ZSONReaders(text), Timeout: c07LongTimeout})
+			if !um.Failed() && compareRuns(o.State, um, o.Op) == "" && compareRuns(o.State, o.Un, um) != "" {
+				return "C07:mergeFilters:error-value"
+			}
 		}
 	}
 	if !o.Un.Failed() && o.Op.Failed() && o.Op.ErrStage == "build" && strings.Contains(o.Op.Err, "join requires two upstream") {
